@@ -401,6 +401,16 @@ def build_cases(rng, tier):
         uses_reject = any(rl.get('trail') is not None for rl in c['prog']['rules'])
         c['cc_extra'] = (r.pick([["-DYY_BUF_SIZE=2"], ["-DYY_BUF_SIZE=8"], []]) if be != 'c99' and not uses_reject else [])
         c['maxk'] = 40 if tier == "quick" else 200
+        if i % 6 == 0:
+            # the start-condition stack grows in steps of YY_START_STACK_INCR (25): nest deeper than two steps
+            depth = r.pick([26, 30, 51, 60])
+            c['prog'] = {'csize': 256, 'caseins': False, 'scs': [('SC2', False)],
+                         'rules': [{'head': ('c', 97), 'bol': False, 'scs': None, 'trail': None},
+                                   {'head': ('c', 98), 'bol': False, 'scs': None, 'trail': None}]}
+            c['acts'] = {1: [('push', r.pick([1, 2]))], 2: [('pop',)]}
+            c['eofs'] = {}
+            c['sources'] = [[[97] * depth + [98] * depth + [97, 98]]]
+            c['focus'] = ['stack', 'deep']
         cases.append(c)
     return cases
 
